@@ -14,6 +14,7 @@ def setup(pid, tier, level, features=None, overflow=True):
         return run, None, {}
     F = Facts(doc)
     models = {ev: Model(F, ev) for ev in F.evaluators_present()}
+    canon_categories(F, models)
     run.coverage_extra["tree_hash"] = doc["_info"]["tree_hash"][:16]
     run.coverage_extra["config"] = doc["_info"]["config"]
     run.coverage_extra["evaluators"] = sorted(models)
@@ -25,6 +26,53 @@ def setup(pid, tier, level, features=None, overflow=True):
     if pid in ("C07", "C08", "C10", "C15"):
         dep_features(run, pid)
     return run, F, models
+
+
+CAT_ANCHORS = {"+": "Additive", "*": "Multiplicative", "^": "Power", "!": "Functional", "|": "BitwiseOr", "&": "BitwiseAnd", "<<": "Shift"}
+
+
+def canon_categories(F, models):
+    """If the precedence-category enum or its variants were renamed, give them their canonical names: a category is
+    identified by the tokens that belong to it (`+` -> Additive, `*` -> Multiplicative, `^` -> Power, `!` -> Functional,
+    `|` `&` `<<` -> the bitwise levels, every other token -> DefaultZero; the one level left over is Negative)."""
+    from ..tables import catinfo, CANON_CAT_PATH
+    adt = catinfo(F)
+    if adt is None:
+        return
+    names = [v["name"] for v in adt["variants"]]
+    canon_names = {"DefaultZero", "BitwiseOr", "BitwiseAnd", "Shift", "Additive", "Multiplicative", "Power", "Negative", "Functional"}
+    if adt["path"] == CANON_CAT_PATH and set(names) <= canon_names:
+        return
+    ren = {}
+    for ev, m in models.items():
+        pt = m.tb.prec_table_raw()
+        if "_" in pt:
+            ren.setdefault(pt["_"], "DefaultZero")
+        for surf, canon in CAT_ANCHORS.items():
+            try:
+                tv = m.tokvar(surf)
+            except Exception:
+                tv = None
+            if tv and tv in pt:
+                if ren.get(pt[tv], canon) != canon:
+                    return          # inconsistent: leave everything as written (the checks will report it)
+                ren[pt[tv]] = canon
+    left = [n for n in names if n not in ren]
+    if len(left) == 1 and "Negative" not in ren.values():
+        ren[left[0]] = "Negative"
+    if len(set(ren.values())) != len(ren):
+        return
+    last = adt["path"].split("::")[-1]
+    F.cat_variant_rename = ren
+    F.cat_atom_rename = {"%s::%s" % (last, a): "OperatorCategory::%s" % b for a, b in ren.items()}
+    F.cat_path_rename = (adt["path"], CANON_CAT_PATH) if adt["path"] != CANON_CAT_PATH else None
+    for m in models.values():
+        keep = {k: v for k, v in m.tb._cache.items() if k in ("roles", "rename", "roles_busy", "adt_names")}
+        m.tb._cache.clear()
+        m.tb._cache.update(keep)
+        m._sum.clear()
+        m._prim = m._bin = None
+        del m.tb.issues[:]
 
 
 def report_issues(run, models, tables=None):
